@@ -1418,6 +1418,7 @@ func (r *RigS) run() {
 										if _, seen := st.DropSeen[k]; !seen {
 											st.DropSeen[k] = [2]int{r.plan.Incarnation, s.Step}
 										}
+										st.DropSeenLast[k] = [2]int{r.plan.Incarnation, s.Step}
 									}
 									if e.Kind == "dropp" && e.Coll == stt.Coll {
 										k := fmt.Sprintf("%d|%d|%d|p%d", tgt, stt.Coll, stt.Shard, e.Part)
